@@ -9,25 +9,25 @@ HERE = os.path.dirname(os.path.dirname(os.path.abspath(__file__)))
 
 # id -> (level, technique, level text, level note (assumed / not decided), design ref)
 T = {
- "C01": ("other", "abstract interpretation (own interpreter over the repository's ASTs) of the parse loop on all short sequences of abstract lines and of property_items/to_ical on abstract component trees, against a reference written from the statement; registry closure; str.replace chains recovered by interpreting the functions on a symbolic text and decided as transducer equivalences; position-marker interpretation of the fixed-width codecs; purity of time-zone construction on the parsed VTIMEZONE",
+ "C01": ("other", "abstract interpretation (own interpreter over the repository's ASTs) of the parse loop on all short sequences of abstract lines and of property_items/to_ical on abstract component trees, against a reference written from the statement; registry closure; str.replace chains recovered by interpreting the functions on a symbolic text and decided as transducer equivalences; position-marker interpretation of the fixed-width codecs; purity of time-zone construction on the parsed VTIMEZONE; parameter round trip and physical-line model of the E9 string model (reader splits only at CRLF/LF for every character the text layer or a builtin it calls distinguishes); VALUE-parameter codec probe",
          "For every line sequence up to the bound (all 13 line kinds, both result modes) the parse loop recovers nesting, names, parameters and values as the text denotes, falsy and repeated values included; serialisation re-emits every name, value and the value's own parameters; every types_map target is a registered codec; Parse∘Emit∘Parse = Parse for TEXT / identity codecs as transducers on the clean domain; DATE/DATE-TIME/TIME writer layout = reader slices = RFC shape.",
          "Bounded: line sequences of length <= 3 (4 thorough) plus curated deeper ones; tree shapes <= 5 nodes. Value equality of typed values for every accepted text is not decided; TEXT stability excludes the K1/K10 factor domains (printed as known findings).", "15-16/C01"),
- "C02": ("other", "table agreement against an RFC 5545 oracle; finite abstract interpretation of Component.add/_encode/descriptor setters over value kinds (incl. re-assignment histories); parse-loop probe over all registered names; position-marker interpretation of the fixed-width codecs",
+ "C02": ("other", "table agreement against an RFC 5545 oracle; finite abstract interpretation of Component.add/_encode/descriptor setters over value kinds (incl. re-assignment histories); parse-loop probe over all registered names; position-marker interpretation of the fixed-width codecs; parameter round trip (E9); classification sweep of vDDDTypes.from_ical over DURATION texts of every length; accumulation with falsy first values",
          "Every RFC 5545 property name maps to the codec family the RFC assigns; for each date/time-family name x value kind the VALUE/TZID parameters produced by the real constructor/add/setter ASTs are the RFC ones, also after re-assignment and for lists; repeated adds accumulate in order; every name under which a TZID is written gets it back on parse.",
          "Oracle = RFC 5545 section 3.8 table embedded in sa/oracles; tzid_from_dt modelled by its contract; equality of decoded Python values is not decided.", "16/C02"),
- "C03": ("exploration", "interpretation of the DATE/DATE-TIME/TIME codecs on position-marker texts; bounded-domain interpretation of UTC-OFFSET and DURATION against an independent RFC reader; the combined decoder on one text of every RFC form; regex language inclusion (own NFA/DFA over re._parser ASTs); exception-escape analysis of every from_ical",
+ "C03": ("exploration", "interpretation of the DATE/DATE-TIME/TIME codecs on position-marker texts; bounded-domain interpretation of UTC-OFFSET and DURATION against an independent RFC reader; the combined decoder on one text of every RFC form; regex language inclusion (own NFA/DFA over re._parser ASTs); exception-escape analysis of every from_ical; scalar codecs (INTEGER beyond 2^53, FLOAT, BOOLEAN, URI, weekday, month) on concrete values",
          "Writer layout = reader slices = RFC text shape for the fixed-width codecs however they are written; UTC-OFFSET (all hours x boundary minutes/seconds x sign) and DURATION (every unit-presence pattern x boundary magnitudes x sign) encode to RFC grammar, denote the value and decode back; every RFC form is classified as the right type incl. lists/periods with a time zone; codec objects render the value they hold now; every codec's from_ical converts failures to ValueError.",
          "UTC-OFFSET/DURATION are decided on a bounded value domain, not for all magnitudes; INTEGER/FLOAT/BINARY inverses are not decided.", "15.3/C03"),
- "C04": ("other", "exception-escape analysis over the resolved call graph with handler subtraction, guard facts and caller-side guard binding; abstract interpretation of the parse loop on sequences with unsplittable lines and undecodable values",
+ "C04": ("other", "exception-escape analysis over the resolved call graph with handler subtraction, guard facts and caller-side guard binding; abstract interpretation of the parse loop on sequences with unsplittable lines and undecodable values; re-serialisation of whatever the composite decoders accept (RECUR/lists/combined decoder x member kinds); lazily evaluated generators in the interpreter",
          "For the entry points from_ical/to_ical/walk every typed risk site in the cone is under a converting handler, discharged by a dominating guard, or justified; inside a lenient component a bad line/value is recorded and dropped with everything else kept, elsewhere it is a ValueError; provider lookups return None on the external's documented exceptions.",
          "Exact on what it reports, incomplete by construction: receivers of unknown static type raise nothing; dateutil/pytz/zoneinfo internals are opaque; termination/CPU bound not decided.", "16/C04"),
  "C05": ("exploration", "bounded exhaustive abstract execution (own interpreter, never the repository) of Contentline.from_parts/parts, Parameters.to_ical/from_ical and the line-list serialiser on every string up to a length bound over the character-class quotient computed from the source; who-may-construct rule; regex class inclusions",
          "Name, parameters and TEXT value read back equal the ones joined for every explored input; values, list items and parameter values cannot create or rename properties, parameters or content lines; raw LF cannot enter a content line; what is serialised does not depend on history; control and structural characters are rejected in unquoted parameter values; the fold language is removed exactly.",
          "Bounded (strings of length <= 2, 3 thorough, per position, plus the reader's multi-character patterns). Known findings K1 (%XX placeholders) and K2 (backslash in parameter values) are reported by key with the minimal offending character set.", "15.2/C05"),
- "C06": ("proof", "linear-arithmetic normalisation of the ASCII branch; exhaustive reachability of the fold loop's integer state with a ghost octet meter; general abstract execution of foldline on lines A^n.R; regex automata facts for unfold; bounded abstract execution of line/line-list serialisation and re-reading",
+ "C06": ("proof", "linear-arithmetic normalisation of the ASCII branch; exhaustive reachability of the fold loop's integer state with a ghost octet meter; general abstract execution of foldline on lines A^n.R; regex automata facts for unfold; bounded abstract execution of line/line-list serialisation and re-reading; every width class and white space at every octet offset around the first and second fold point, through Contentline.to_ical itself",
          "Every physical line produced by foldline is <= 75 octets for every input line (closed state space, not sampled), characters are never split, chunks tile the line, and uFOLD removes exactly the inserted separators; every line of a serialised component is such a line, also when it was read from otherwise folded input.",
          "Trusted: UTF-8 length of a code point is in {1,2,3,4}; defaults limit=75 and fold_sep CRLF+SP (the only call site passes none). If foldline is rewritten beyond both symbolic arguments the bound is decided by the bounded PHYS-MODEL only (noted in the evidence).", "16/C06"),
- "C07": ("proof", "str.replace chains recovered by interpreting each function on a symbolic text, decided as subsequential transducers (equivalence / range-emptiness by bounded-delay product on an exact alphabet quotient); bounded abstract execution of the whole wire path (join, serialise, split, parts, decode) and of the list codec",
+ "C07": ("proof", "str.replace chains recovered by interpreting each function on a symbolic text, decided as subsequential transducers (equivalence / range-emptiness by bounded-delay product on an exact alphabet quotient); bounded abstract execution of the whole wire path (join, serialise, split, parts, decode) and of the list codec; physical-line model (fold/unfold of long texts of every character width)",
          "unescape∘escape = documented normalisation for every Unicode string at codec, property and list level, decided exactly on the domain avoiding the known factors; encoded form has no raw line break and no unescaped ; or ,; raw str/bytes values and list items survive the wire path on every explored input.",
          "Trusted: transducer semantics of str.replace (Appendix D), alphabet quotient argument. Known findings K1/K3/K9 factors are excluded and printed; the wire/list model is bounded.", "16/C07"),
  "C08": ("exploration", "bounded exhaustive abstract execution of Parameters.to_ical/from_ical (alone and inside a content line) over the character-class quotient, the emitted text read by an independent RFC 5545 tokenizer; ownership of parameters by every codec constructor; regex class inclusion; transducer identity of the placeholder rewriting",
@@ -39,19 +39,19 @@ T = {
  "C10": ("other", "write-effect analysis of the to_ical cone, set-iteration-order leak analysis, sorted-flag binding over call edges; abstract interpretation of property_items/content_lines/to_ical on abstract trees and of the canonical ordering",
          "No store to observable non-fresh state in the serialisation cone; no set iteration order flows into output; the sorted flag reaches every nested sorter; items are emitted in canonical (sorted) or insertion order with values and subcomponents in insertion order, BEGIN/END balanced and properly nested.",
          "Observable state = attributes/items read by the to_ical cone or any __eq__; byte identity as such follows from these but floats/locale are not examined; trees <= 5 nodes.", "16/C10"),
- "C11": ("other", "finite abstract interpretation over tz-kinds (naive/utc/zoned, UTC-alias zone) of the TZID producers under both provider models; interpretation of TZP.localize_utc/localize on provider-level contracts; parse-loop probe for TZID forwarding; ownership of parameters",
+ "C11": ("other", "finite abstract interpretation over tz-kinds (naive/utc/zoned, UTC-alias zone) of the TZID producers under both provider models; interpretation of TZP.localize_utc/localize on provider-level contracts; parse-loop probe for TZID forwarding; ownership of parameters; providers' localize/localize_utc on the library contract; tz database modelled with ids differing only in punctuation",
          "UTC values get Z and no TZID, zoned values (incl. aliases of UTC) their own TZID and no Z, naive neither, in all producers; every field the DATE-TIME writer formats is read from a value with the stored value's kind, zone and instant (interpreted on position markers); RFC UTC-only properties are forced to UTC; the TZID is handed to the decoder of every value of a line exactly for the names that admit it.",
          "Offsets near transitions, tz database content and provider agreement are runtime facts and are not decided; tzid_from_dt by contract.", "15.4/C11"),
  "C12": ("other", "abstract interpretation (own interpreter over the repo ASTs) of Timezone.get_transitions and PYTZ.create_timezone on abstract VTIMEZONEs - symbolic local onsets as linear terms, concrete whole-minute offsets, DTSTART/RDATE/RRULE onsets, dateutil by contract - against an RFC 5545 3.6.5 oracle; global read/write effect analysis across parses; sibling interface completeness; interpretation of the VTIMEZONE caching path on a stub provider",
          "For 11 abstract VTIMEZONE shapes: one transition per distinct onset, ordered by local onset; UTC onset = local onset minus TZOFFSETFROM (as a symbolic term); offset in force = TZOFFSETTO; DST part from the nearest STANDARD observance; name = TZNAME; RRULE expanded in the TZOFFSETFROM offset; the pytz zone class carries exactly these transitions. No process-global state written by one parse is read by another except the listed known finding; both providers implement the full interface; a custom TZID is served by the zone built from the calendar's own VTIMEZONE.",
          "What dateutil/pytz/zoneinfo report at each instant from the transitions they are given, dateutil's expansion of an RRULE, the zoneinfo provider's path through dateutil.tz.tzical, second-granular offsets and generated names for observances without TZNAME are not decided; K4 (process-wide first-wins VTIMEZONE cache) is a known finding.", "19.2"),
- "C14": ("other", "abstract evaluation of Alarms.times / Alarm.triggers and the manual Alarms() paths in linear normal form over symbolic start/end/trigger/duration, under the zoneinfo and the pytz provider model; symbolic trip count where the loop has that shape",
+ "C14": ("other", "abstract evaluation of Alarms.times / Alarm.triggers and the manual Alarms() paths in linear normal form over symbolic start/end/trigger/duration, under the zoneinfo and the pytz provider model; symbolic trip count where the loop has that shape; start and end in different zones (instant vs wall-clock arithmetic)",
          "For every alarm shape (incl. zero-length triggers, alarms added after the component) the computed times are anchor + TRIGGER + k*DURATION with k = 0..REPEAT exactly when DURATION is present, the anchor is start/end per RELATED, absolute triggers ignore the component, only the documented errors occur, and pytz wall clocks are not re-read after arithmetic.",
          "REPEAT in 0..2 (3 thorough) concretely, symbolically when the repeat loop is a range loop; date vs date-time arithmetic values are not decided.", "16/C14"),
- "C15": ("proof", "exhaustive abstract evaluation of the real ASTs of AlarmTime.acknowledged/trigger/is_active and Alarms._alarm_time over all order types x presence x trigger kinds (both provider models), against the decision table of the statement; history independence of the Alarms object",
+ "C15": ("proof", "exhaustive abstract evaluation of the real ASTs of AlarmTime.acknowledged/trigger/is_active and Alarms._alarm_time over all order types x presence x trigger kinds (both provider models), against the decision table of the statement; history independence of the Alarms object; order independence of settings made before add_component; sub-second fields on a quarter-second model",
          "The functions observe instants only through comparisons/None tests (checked), so the finite quotient is exact: every case equals the decision table; active is exactly the sub-list of times; reading times/active never freezes later settings.",
          "Trusted: the abstract interpreter and its semantic table for date/datetime comparison; contracts of tzp.localize_utc / normalize_pytz.", "16/C15"),
- "C16": ("model_checking", "presence/kind state machine extracted by abstract interpretation of the descriptor setter/deleter ASTs, explored to closure over all stored states; getter decision tables (also under the pytz provider model)",
+ "C16": ("model_checking", "presence/kind state machine extracted by abstract interpretation of the descriptor setter/deleter ASTs, explored to closure over all stored states; getter decision tables (also under the pytz provider model); every edit with and without earlier reads of start/end/duration (read purity); DURATIONs of negative and zero length",
          "All states reachable through the start/end/DTSTART/DTEND|DUE/DURATION setters and deleters satisfy exclusivity; rejected arguments leave the state unchanged; start/end/duration getters equal the RFC decision table for every stored shape; Event and Todo agree; end is the instant start + DURATION.",
          "CaselessDict semantics as decided in C17; states reached through add()/item assignment are inputs of the getter tables and of the machine's start states.", "16/C16"),
  "C17": ("exploration", "model-based exploration by interpretation: the CaselessDict family's own methods on a model of the builtin OrderedDict, on every sequence of mapping operations up to a bound, compared after every step with a dictionary keyed by the upper-cased name; canonical ordering of every class of the family",
@@ -63,7 +63,7 @@ T = {
  "C19": ("exploration", "interpretation of vRecur.to_ical/from_ical/parse_type and the part codecs on rules of every RFC 5545/7529 part, alone and combined, three construction modes, read back by an independent RECUR reader; table agreement with the RFC part table; regex inclusion",
          "The encoded text is RECUR syntax with FREQ (after an optional RSCALE) first and exactly the supplied parts and values; decoding yields every part in text order with the same typed values; re-encoding is stable; decoded/encoded results do not depend on history; canonical_order and the type table agree with the RFC.",
          "About 150 rules; equality of occurrence sequences under an expander is not decided.", "17.3b/C19"),
- "C20": ("exploration", "interpretation of walk/_walk, the kind accessors and Component.__eq__ on abstract component trees against pre-order and the equivalence laws; guard analysis of every __eq__ (following helper methods); registry data",
+ "C20": ("exploration", "interpretation of walk/_walk, the kind accessors and Component.__eq__ on abstract component trees against pre-order and the equivalence laws; guard analysis of every __eq__ (following helper methods); registry data; deep copies (own __deepcopy__ interpreted) equal, separate, serialising identically; components of a kind by name only",
          "walk returns every matching component exactly once in pre-order for names in any case and any predicate; accessors return the components of their kind; equality is reflexive, symmetric, insensitive to subcomponent and insertion order, False for 9 kinds of foreign operand, != its negation, and distinguishes value, list order, extra property, dropped/extra subcomponent and the multiset of subcomponents; no __eq__ can raise on a foreign operand.",
          "Trees <= 5 nodes plus repeated-kind and VTIMEZONE trees; pickle fidelity not decided; K8 (component kind not compared) is a known finding.", "16/C20"),
 }
